@@ -13,6 +13,10 @@ K06 = [
         "main.py": "class Kls:\n    def __init__(self, {0}, {1}=2):\n        self.val = ({0}, {1})\n    def meth(self, {2}, {3}=4):\n        return (self.val, {2}, {3})\n{4} = Kls(1)\nprint({4}.meth(5), Kls(1, {1}=3).meth({2}=6, {3}=7), Kls({0}=8).meth(9, 10))\n"}), "main.py", "meth"),
     (Skeleton("g03_constructor", {
         "main.py": "class Kls:\n    def __init__(self, {0}, {1}=2):\n        self.val = ({0}, {1})\n{2} = Kls(1)\nprint({2}.val, Kls(1, {1}=3).val, Kls({0}=8, {1}=9).val)\n"}), "main.py", "__init__"),
+    # the receiver of the method call is an attribute chain; the shorter receiver has a method of the
+    # same name, so a call rewritten onto the wrong receiver still runs
+    (Skeleton("g04_method_dotted_receiver", {
+        "main.py": "class Inner:\n    def meth(self, {0}, {1}=4):\n        return ('inner', {0}, {1})\nclass Outer:\n    def __init__(self):\n        self.inner = Inner()\n    def meth(self, {0}, {1}=4):\n        return ('outer', {0}, {1})\n{2} = Outer()\nprint({2}.inner.meth(5), {2}.inner.meth({0}=6, {1}=7), {2}.meth(1), Outer().inner.meth(8, 9))\n"}), "main.py", "meth"),
 ]
 
 
